@@ -137,4 +137,80 @@ def check_trivia(prog):
             else:
                 obs.append(ok(RULE, key, f_site, "children trivia and ending comments are printed"))
     obs.append(info(RULE, "trivia:sites", "", "%d children_between sites" % n))
+    obs.extend(check_ending_all_paths(prog))
+    return obs
+
+
+def check_ending_all_paths(prog):
+    """MIR, all paths: after `(children, ending) = children_between(..)` every path to a return hands `ending` to a call
+    (format_comments or a helper) unless `ending.is_empty()` is known to be true on that path"""
+    obs = []
+    for f in sorted(prog.fns.values(), key=lambda f: f.path):
+        if f.crate.split(".")[0] != "jrsonnet_formatter":
+            continue
+        k = 0
+        for b, t in f.calls():
+            if not (t.get("fn") or "").endswith("children::children_between") or f.is_cleanup(b) or b not in f.live_blocks:
+                continue
+            k += 1
+            key = "%s:ending-all-paths#%d" % (short_path(f.root or f.path), k)
+            dest = t["dest"][0]
+
+            def is_ending(d):
+                return contains(d, lambda x: x[0] == "field" and x[2] == "1" and strip(x[1])[0] == "call" and str(strip(x[1])[1]).endswith("children_between")) \
+                    or contains(d, lambda x: x[0] == "field" and x[2] == "1" and strip(x[1]) == ("var", dest, None))
+
+            # locals that hold the ending comments: the tuple field .1 is moved into a named local
+            ending_locals = set()
+            for bb in f.live_blocks:
+                for s2 in f.stmts(bb):
+                    if s2[0] == "a" and len(s2[1]) == 1 and s2[2][0] == "use" and s2[2][1][0] in ("mv", "cp"):
+                        pl = s2[2][1][1]
+                        if pl[0] == dest and len(pl) > 1 and str(pl[1]).startswith(".1"):
+                            ending_locals.add(s2[1][0])
+
+            def uses_ending(op):
+                if op[0] in ("cp", "mv") and op[1][0] in ending_locals:
+                    return True
+                if op[0] in ("cp", "mv"):
+                    sd = f.single_def(op[1][0])
+                    if sd and sd[0] == "s" and sd[4][0] == "ref" and sd[4][2][0] in ending_locals:
+                        return True
+                return is_ending(strip(f.desc_op(op)))
+
+            if not ending_locals:
+                obs.append(info(RULE, key, site(f, t["line"]), "ending comments are not bound to a local (see children_between obligations)"))
+                continue
+            blockers = set()
+            empty_true_edges = set()
+            for bb, tt in f.calls():
+                if any(uses_ending(a) for a in tt["args"]):
+                    if (tt.get("fn") or "").endswith("EndingComments::is_empty"):
+                        continue
+                    blockers.add(bb)
+            for u, v, (d, val) in f._cond_edge_list():
+                sd = strip(d)
+                if sd[0] == "call" and str(sd[1]).endswith("EndingComments::is_empty") and val is True:
+                    empty_true_edges.add((u, v))
+                if sd[0] == "un" and sd[1] == "Not" and strip(sd[2])[0] == "call" and str(strip(sd[2])[1]).endswith("EndingComments::is_empty") and val is False:
+                    empty_true_edges.add((u, v))
+            errs = {bb for bb, tt in f.calls() if "FromResidual" in (tt.get("fn") or "")}
+            start = t.get("target")
+            seen = {start}
+            st = [start]
+            while st:
+                x = st.pop()
+                if x in blockers:
+                    continue
+                for y in f.succs[x]:
+                    if y in seen or f.is_cleanup(y) or y in errs or (x, y) in empty_true_edges:
+                        continue
+                    seen.add(y)
+                    st.append(y)
+            escaped = [r for r in f.returns() if r in seen and r not in blockers]
+            if escaped:
+                obs.append(bad(RULE, key, site(f, t["line"]), "%s: a path returns without handing the ending comments of this list to format_comments "
+                               "(and without knowing that there are none): a comment before the closing bracket is dropped" % short_path(f.root or f.path)))
+            else:
+                obs.append(ok(RULE, key, site(f, t["line"]), "on every path the ending comments are printed or known to be empty"))
     return obs
